@@ -2,6 +2,7 @@
 From Coq.Strings Require Import Byte String.
 From Coq Require Import List Arith NArith Bool Lia.
 Import ListNotations.
+From V Require model.Quote.
 From V Require Import lib.Bytes.
 From V Require Import lib.Sexp model.Ast model.Url.
 Local Open Scope nat_scope.
@@ -87,7 +88,13 @@ Fixpoint split_bt (s acc : bytes) : list bytes :=
   match s with [] => [rev acc] | b :: r => if Byte.eqb b x60 then rev acc :: split_bt r [] else split_bt r (b :: acc) end.
 Fixpoint join_with (sep : bytes) (l : list bytes) : bytes :=
   match l with [] => [] | [x] => x | x :: r => x ++ sep ++ join_with sep r end.
-Definition go_string (s : bytes) : bytes := [x60] ++ join_with (bs "` + ""`"" + `") (split_bt s []) ++ [x60].
+(* text that is not valid UTF-8 cannot be spelled by a raw string (RangeWriter would re-encode every ill-formed byte as U+FFFD):
+   createGoString returns strconv.Quote(s) for it - model/Quote.v, where IsPrint, an oracle, is taken to hold of every non-ASCII
+   code point (as qesc does) *)
+Definition gs_is_print (r : N) : bool := if (r <? 128)%N then (32 <=? r)%N && (r <? 127)%N else true.
+Definition go_string (s : bytes) : bytes :=
+  if Quote.valid_utf8 s then [x60] ++ join_with (bs "` + ""`"" + `") (split_bt s []) ++ [x60]
+  else [x22] ++ Quote.quote gs_is_print s ++ [x22].
 Definition is_space (b : byte) : bool := match b with x20 | x09 | x0a | x0d | x0b | x0c => true | _ => false end.
 Definition all_ws (s : bytes) : bool := forallb is_space s.
 
